@@ -287,7 +287,8 @@ theorem C19_trace_sorted (budget : Nat) (mc ms : List Machine) (sq : SimQueue) (
     (and of the shape of the Rust type: one transition slot per event), fractions in `[0, 1]`, a
     non-empty, well-formed queue of trace packets with times in `[-d, T]`, network delay `d`, an
     effective packets-per-second limit of at least 1, a cap of `N ≥ 1` iterations (`CappedAt`:
-    `max_sim_iterations = N`, or `max_trace_length = N` with both output filters off), and `(N + 2) · span N T d ≤ Duration::MAX`: whatever the oracle, the run ends in none of the
+    `max_sim_iterations = N`, or `max_trace_length = N` with both output filters off), and
+    `(N + 2) · span N T d ≤ Duration::MAX`: whatever the oracle, the run ends in none of the
     fault classes of the model — no overflow of checked `Duration` arithmetic, no `unwrap` on
     `None`, no fault inside either framework, no machine id out of range, no `BUG:` assertion. -/
 theorem C19_total_queue (budget : Nat) (mc ms : List Machine) (sq : SimQueue) (N d T : Nat) (a : Args) (orc : σ)
@@ -366,10 +367,12 @@ theorem C19_span_eq (N T d : Nat) :
 example : TB.TO = 86400000000000 ∧ TB.TD = 86400000000000 ∧ TB.BD = 86400000000000 ∧ TB.W = 172800000000000 ∧
     TB.WB = 1000000000 ∧ TB.aggK = 4 := by decide
 
-/-- Non-vacuity of the guard: 50 iterations over a 1 s trace with 100 ms delay need 2.4e19 ns
-    of the 1.8e28 available; 10 000 iterations over an hour-long trace still fit. -/
+/-- Non-vacuity of the guard: 50 iterations over a 1 s trace with 100 ms delay need 4.6e19 ns
+    of the 1.8e28 available; 10 000 iterations over an hour-long trace still fit (3.5e26); for
+    a 1 s trace the guard holds up to N = 37 650. -/
 example : (50 + 2) * TB.span 50 1000000000 100000000 ≤ durMax := by decide
 example : (10000 + 2) * TB.span 10000 3600000000000 100000000 ≤ durMax := by decide
+example : (37650 + 2) * TB.span 37650 1000000000 100000000 ≤ durMax := by decide
 /-- ... and the guard does bind: a cap of 100 000 iterations exceeds it -/
 example : ¬ ((100000 + 2) * TB.span 100000 1000000000 100000000 ≤ durMax) := by decide
 
